@@ -835,6 +835,26 @@ fn gen_scn(g: &mut Rng, pool: &[Pfx]) -> Scn {
     Scn { link: !with_reconf || g.chance(1, 2), startfail: g.chance(1, 40), cfgs, ops }
 }
 
+/// Hold-timer histories: the peer entry has `hold_time = 3`, so every session of that peer is silent for at most a few
+/// quick events before its `h:` (or ends otherwise at once); nothing else in the case waits on the wall clock.
+fn gen_hold_scn(g: &mut Rng, pool: &[Pfx]) -> Scn {
+    let p = a4(1, 0, 1 + g.below(3) as u8);
+    let q = a4(1, 1, 1);
+    let mut cfg = vec![Entry { key: Key::Exact(p), asns: Asns::One(65001), hold: 3 }];
+    if g.chance(1, 2) { cfg.push(Entry { key: Key::Prefix(24, q >> 8), asns: Asns::Many(vec![]), hold: 0 }); }
+    let mut ops = vec![Op::Conn(p, 65001)];
+    let mut n = 1usize;
+    if g.chance(1, 2) { ops.push(Op::Upd(0, gen_upd(g, pool))); }
+    if g.chance(1, 2) { ops.push(Op::Conn(q, 65002)); n += 1; if g.chance(1, 2) { ops.push(Op::Upd(1, gen_upd(g, pool))); } }
+    ops.push(Op::Hold(0));
+    if g.chance(2, 3) {
+        ops.push(Op::Conn(p, 65001));
+        let k = n;
+        match g.below(4) { 0 => ops.push(Op::Fin(k)), 1 => ops.push(Op::Rst(k)), 2 => ops.push(Op::Hold(k)), _ => ops.push(Op::Terminate) }
+    }
+    Scn { link: g.chance(3, 4), startfail: false, cfgs: vec![cfg], ops }
+}
+
 fn witnesses(pool: &[Pfx]) -> Vec<(&'static str, Scn)> {
     let u = |attr: u32, ann: Vec<usize>, wd: Vec<usize>| Upd { attr, ann: ann.into_iter().map(|i| Nlri { pfx: pool[i], safi: Safi::U }).collect(), wd: wd.into_iter().map(|i| Nlri { pfx: pool[i], safi: Safi::U }).collect(), mp4: false, corrupt: 0 };
     let p1 = a4(1, 0, 1);
@@ -893,7 +913,7 @@ fn main() {
         std::thread::spawn(move || {
             let mut g = Rng::new(seed.wrapping_mul(1000).wrapping_add(ti as u64 + 1));
             let mut outs = vec![];
-            while t0.elapsed() < budget { let scn = gen_scn(&mut g, &pool); outs.push(run_scn(&scn)); }
+            while t0.elapsed() < budget { let scn = if g.chance(1, 40) { gen_hold_scn(&mut g, &pool) } else { gen_scn(&mut g, &pool) }; outs.push(run_scn(&scn)); }
             outs
         })
     }).collect();
